@@ -158,8 +158,7 @@ Fixpoint rev_allnodes_loop (d : data) (p : params) (k : calc) (st : rstate) (nod
                           bind (rev_allnodes_loop d p k st r) (fun rest =>
                             match js_enter start with
                             | Some b =>
-                                (* reverse_journey.cpp:327 uses getMinWaitingTime(), not ...OrDefault *)
-                                let depd := c_dep b - c_minw b in
+                                let depd := c_dep b - minw_eff p b in
                                 if k_arr k - depd <=? q_maxtt p
                                 then Ok ({| an_node := n; an_time := k_arr k; an_ttt := k_arr k - depd;
                                             an_ntr := count_legs d js1 |} :: rest)
